@@ -128,10 +128,24 @@ def gen_data(seed, n, ft, dim, npdt):
     cnt = 1
     for s in shape:
         cnt *= s
-    if npdt.startswith('float'):
+    if npdt == 'float64':
+        # full 53-bit mantissas and extreme magnitudes: any precision-losing number format is visible in the token comparison
+        def one():
+            m = r.randrange(8)
+            if m <= 3:
+                return r.uniform(-1.0, 1.0) * 10.0 ** r.randrange(-3, 4)
+            if m == 4:
+                return r.random() * 10.0 ** r.choice([-300, -30, -12, 15, 22, 300])
+            if m == 5:
+                return r.choice([5e-324, 2.2250738585072014e-308, 1.7976931348623157e308, -0.0, 0.1, 1.0 / 3.0, 123456789.123456789, 1e16 + 2.0])
+            return r.randrange(-800, 800) / 8.0
+        flat = [one() for _ in range(cnt)]
+    elif npdt == 'float32':
+        # dyadic values with few bits: their shortest float32 text is exact also for a reader of doubles
+        # (full-precision float32 data is covered by the dtype-aware stream `dtype_stream`)
         flat = [r.randrange(-800, 800) / 8.0 for _ in range(cnt)]
     else:
-        flat = [r.randrange(-50, 50) for _ in range(cnt)]
+        flat = [r.choice([r.randrange(-50, 50), r.randrange(-2 ** 31, 2 ** 31 - 1)]) for _ in range(cnt)]
     return np.array(flat, dtype=npdt).reshape(shape)
 
 
@@ -148,7 +162,7 @@ def gen_scenario(r):
         if kind in ('nodal', 'cell'):
             ft = r.randrange(3)
             dim = r.choice([0, 1]) if ft == 0 else r.choice([1, 2, 2, 3])
-            op = dict(k=kind, name=r.choice(NAMES[1:5]), ft=ft, dim=dim, dt=r.randrange(11), np=r.choice(NP_DTYPES),
+            op = dict(k=kind, name=(NAMES[0] if r.random() < 0.06 else r.choice(NAMES[1:5])), ft=ft, dim=dim, dt=r.randrange(11), np=r.choice(NP_DTYPES),
                       seed=r.randrange(10 ** 9), wrong=(kind == 'cell' and r.random() < 0.12))
         elif kind == 'sphere':
             op = dict(k='sphere', x=r.randrange(-16, 16) / 4.0, y=r.random(), r=r.choice([0.125, 0.3, 1.0, r.random()]))
@@ -371,6 +385,153 @@ def evaluate(ctx, scenarios, model_ok, tag):
         shutil.rmtree(workdir, ignore_errors=True)
 
 
+# ------------------------------------------------------------------------------------------ dtype-aware round trip, geometry
+LABEL_OF = {'float64': 'double', 'float32': 'float', 'int64': 'long', 'int32': 'int', 'int16': 'short', 'uint8': 'unsigned_char'}
+
+
+def py_read(text):
+    """small independent reader (Python side): -> dict(points, cells, types, pd={name:(kind,label,rows of str)}, cd=...)"""
+    toks = ' '.join(text.split('\n')[2:]).split()
+    i = toks.index('POINTS')
+    npnt = int(toks[i + 1])
+    pts = [tuple(float(t) for t in toks[i + 3 + 3 * k:i + 6 + 3 * k]) for k in range(npnt)]
+    i = toks.index('CELLS')
+    ncell = int(toks[i + 1])
+    j = i + 3
+    cells = []
+    for _ in range(ncell):
+        k = int(toks[j])
+        cells.append([int(t) for t in toks[j + 1:j + 1 + k]])
+        j += 1 + k
+    assert toks[j] == 'CELL_TYPES' and int(toks[j + 1]) == ncell
+    types = [int(t) for t in toks[j + 2:j + 2 + ncell]]
+    j += 2 + ncell
+    out = dict(points=pts, cells=cells, types=types, pd={}, cd={})
+    cur, n = None, 0
+    width = {'SCALARS': 1, 'VECTORS': 3, 'TENSORS': 9}
+    while j < len(toks):
+        t = toks[j]
+        if t in ('POINT_DATA', 'CELL_DATA'):
+            cur, n = out['pd' if t == 'POINT_DATA' else 'cd'], int(toks[j + 1])
+            j += 2
+        elif t in width:
+            name, label = toks[j + 1], toks[j + 2]
+            j += 3
+            if t == 'SCALARS':
+                assert toks[j] == 'LOOKUP_TABLE' and toks[j + 1] == 'default'
+                j += 2
+            cnt = n * width[t]
+            cur[name] = (t, label, toks[j:j + cnt], n)
+            j += cnt
+        else:
+            raise ValueError('unexpected token %r' % t)
+    return out
+
+
+def dtype_stream(ctx):
+    """L2 without the model: (1) values of every numpy dtype, written under the matching VTK label, read back AT THAT DTYPE
+    equal the supplied values exactly (full-precision float32 / float64, extreme integers); (2) geometry of the written cells
+    against the mesh itself: same vertex coordinates per element, counter-clockwise, mid-side nodes of quadratic cells at the
+    edge midpoints in VTK order."""
+    import random
+    import numpy as np
+    from optimism import VTKWriter as V
+    r = ctx.rng('dtype')
+    workdir = os.path.join(C.RUN, 'c20_%d_d' % os.getpid())
+    os.makedirs(workdir, exist_ok=True)
+    FTE = [V.VTKFieldType.SCALARS, V.VTKFieldType.VECTORS, V.VTKFieldType.TENSORS]
+    n_checked = 0
+    try:
+        combos = [(o, b) for o in (1, 2, 3, 4) for b in (False, True) if not (b and o not in (2, 3))]
+        for rep in range(ctx.n(2, 12)):
+            for (order, bubble) in combos:
+                sc = dict(nx=r.choice([2, 3]), ny=r.choice([2, 3]), order=order, bubble=bubble)
+                mesh = get_mesh(sc)
+                w = V.VTKWriter(mesh, os.path.join(workdir, 'g'))
+                nall, nel = int(mesh.coords.shape[0]), int(mesh.conns.shape[0])
+                supplied = {}
+                for fi, npdt in enumerate(LABEL_OF):
+                    ft = r.randrange(3)
+                    dim = r.choice([2, 3]) if ft else r.choice([0, 1])
+                    kind = r.choice(['nodal', 'cell'])
+                    n = nall if kind == 'nodal' else nel
+                    shape = {0: (n,) if dim == 0 else (n, 1), 1: (n, dim), 2: (n, dim, dim)}[ft]
+                    cnt = int(np.prod(shape))
+                    if npdt.startswith('float'):
+                        data = np.array([r.uniform(-1, 1) * 10.0 ** r.randrange(-6, 7) for _ in range(cnt)], dtype=npdt).reshape(shape)
+                    else:
+                        info = np.iinfo(npdt)
+                        data = np.array([r.choice([r.randrange(info.min, info.max + 1), info.min, info.max, 0]) for _ in range(cnt)], dtype=npdt).reshape(shape)
+                    name = 'a%d' % fi
+                    dte = [d for d in V.VTKDataType if d.value == LABEL_OF[npdt]][0]
+                    (w.add_nodal_field if kind == 'nodal' else w.add_cell_field)(name, data, FTE[ft], dte)
+                    supplied[name] = (kind, ft, dim, npdt, data)
+                nsph = r.randrange(0, 3)
+                for _ in range(nsph):
+                    w.add_sphere(np.array([r.random(), r.random()]), r.random())
+                w.write()
+                text = open(os.path.join(workdir, 'g.vtk')).read()
+                case = dict(dtype_stream=True, nx=sc['nx'], ny=sc['ny'], order=order, bubble=bubble, seed=ctx.seed)
+                try:
+                    rd = py_read(text)
+                except Exception as ex:
+                    ctx.fail('conclusion', 'dtype stream: file not readable by the independent reader: %r' % (ex,), case=case, concrete=True)
+                    continue
+                n_checked += 1
+                nout = len(rd['points']) - nsph
+                out_nodes = np.asarray(w.outputNodes)
+                for name, (kind, ft, dim, npdt, data) in supplied.items():
+                    sec = rd['pd' if kind == 'nodal' else 'cd']
+                    if name not in sec:
+                        ctx.fail('conclusion', 'dtype stream: %s field %s missing from the file' % (kind, name), case=case, concrete=True)
+                        continue
+                    t, label, strs, n = sec[name]
+                    if t != ['SCALARS', 'VECTORS', 'TENSORS'][ft] or label != LABEL_OF[npdt]:
+                        ctx.fail('conclusion', 'dtype stream: field %s written as %s %s, supplied as %s %s' % (name, t, label, ['SCALARS', 'VECTORS', 'TENSORS'][ft], LABEL_OF[npdt]), case=case, concrete=True)
+                    try:
+                        got = np.array([np.dtype(npdt).type(x) for x in strs], dtype=npdt).reshape(n, -1)
+                    except (ValueError, OverflowError) as ex:
+                        ctx.fail('conclusion', 'dtype stream: %s field of dtype %s written under label %s contains a literal that is not a %s: %r' % (kind, npdt, label, label, ex),
+                                 case=case, concrete=True)
+                        continue
+                    d0 = data[out_nodes] if kind == 'nodal' else data
+                    rows = d0.shape[0]
+                    if ft == 0:
+                        want = d0.reshape(rows, 1)
+                    elif ft == 1:
+                        want = np.zeros((rows, 3), npdt)
+                        want[:, :dim] = d0
+                    else:
+                        want = np.zeros((rows, 3, 3), npdt)
+                        want[:, :dim, :dim] = d0
+                        want = want.reshape(rows, 9)
+                    if got.shape[0] < rows or not np.array_equal(got[:rows], want) or np.any(got[rows:] != 0):
+                        ctx.fail('conclusion', 'dtype stream: %s %s field of dtype %s does not read back exactly at that dtype (order %d)' % (kind, ['scalar', 'vector', 'tensor'][ft], npdt, order),
+                                 case=case, concrete=True)
+                # geometry of the cells against the mesh
+                P = np.array(rd['points'])[:, :2]
+                vn = np.asarray(mesh.parentElement.vertexNodes)
+                for e in range(nel):
+                    ids = rd['cells'][e]
+                    tri = P[ids[:3]]
+                    ref = np.asarray(mesh.coords)[np.asarray(mesh.conns)[e][vn]]
+                    area = 0.5 * ((tri[1, 0] - tri[0, 0]) * (tri[2, 1] - tri[0, 1]) - (tri[2, 0] - tri[0, 0]) * (tri[1, 1] - tri[0, 1]))
+                    ok = np.array_equal(tri, ref) and area > 0 and rd['types'][e] == (22 if order == 2 else 5) and len(ids) == (6 if order == 2 else 3)
+                    if ok and order == 2:
+                        mids = P[ids[3:]]
+                        ok = np.allclose(mids, 0.5 * (tri + tri[[1, 2, 0]]), rtol=0, atol=1e-14)
+                    if not ok:
+                        ctx.fail('conclusion', 'dtype stream: cell %d of the file (order %d) is not the mesh element: vertices / orientation / mid-side nodes / cell type differ' % (e, order),
+                                 case=case, concrete=True)
+                        break
+                if len(rd['points']) != nout + nsph or nout != len(out_nodes):
+                    ctx.fail('conclusion', 'dtype stream: POINTS count', case=case, concrete=True)
+    finally:
+        shutil.rmtree(workdir, ignore_errors=True)
+    ctx.count('dtype_stream_files', n_checked)
+    return n_checked
+
+
 def scenario_key(sc):
     return json.dumps(sc, sort_keys=True)
 
@@ -380,6 +541,22 @@ def correspondence(ctx, model_ok):
     n = ctx.n(70, 700)
     scenarios = [WITNESS['F9'], WITNESS['F10'], WITNESS['F11']] + [gen_scenario(r) for i in range(n)]
     nfiles = evaluate(ctx, scenarios, model_ok, 'm')
+    nfiles += dtype_stream(ctx)
+    # report (not a failure: the caller chooses the label): fields whose VTK label class differs from the class of the supplied data,
+    # and user fields stored under the reserved key sphere_radius (replaced by the marker radii whenever spheres exist)
+    mism = resv = resv_replaced = 0
+    for sc_ in scenarios:
+        has_sphere = any(op['k'] == 'sphere' for op in sc_['ops'])
+        for op in sc_['ops']:
+            if op['k'] in ('nodal', 'cell'):
+                if (op['np'].startswith('float')) != (DT_STR[op['dt']] in ('float', 'double')):
+                    mism += 1
+                if op['k'] == 'nodal' and op['name'] == NAMES[0]:
+                    resv += 1
+                    resv_replaced += 1 if has_sphere else 0
+    ctx.cov['label_dtype_class_mismatch_fields'] = mism
+    ctx.cov['user_nodal_fields_named_sphere_radius'] = resv
+    ctx.cov['of_which_in_scenarios_with_spheres_replaced_by_marker_radii'] = resv_replaced
     keys = {scenario_key(s) for s in scenarios if any(op['k'] != 'write' for op in s['ops'])}
     ctx.count('evaluations', nfiles)
     ctx.count('distinct_nontrivial', len(keys))
@@ -457,6 +634,17 @@ def replay(ctx, path):
     case = rep.get('failing_input')
     print('replay of', path)
     print(json.dumps(rep.get('reasons'), indent=1)[:3000])
+    if case and case.get('dtype_stream'):
+        ctx.seed = case.get('seed', ctx.seed)
+        ctx.tier = rep.get('tier', ctx.tier)
+        ctx.failures = []
+        import optimism  # noqa: F401
+        dtype_stream(ctx)
+        for fl in ctx.failures[:5]:
+            print('still failing:', fl['what'])
+        if not ctx.failures:
+            print('the dtype-aware / geometry stream of that seed now satisfies the conclusions')
+        return 1 if ctx.failures else 0
     if not case or 'scenario' not in case:
         print('no concrete failing input recorded; broken obligations:', rep.get('broken'))
         return 1
